@@ -512,6 +512,7 @@ async def _fetch_with_probe(
         content_length is not None
         and "bytes" in accept_ranges.lower()
         and content_length >= config.parallel_threshold_bytes
+        and content_length > 0
     )
 
     if use_parallel:
@@ -638,6 +639,34 @@ def _content_length_from_content_range(content_range: str) -> int | None:
         return None
 
 
+def _content_range_mismatch(content_range: str | None, start: int, end: int, total: int | None) -> str | None:
+    """Describe how a 206's ``Content-Range`` contradicts the request, or return ``None``.
+
+    An absent or unparseable header carries no information and is accepted.
+    A parseable one must name exactly the requested ``start-end`` and, when
+    it states a numeric complete length, that length must equal the object
+    size the ranges were computed from.  Otherwise a probe that under-reports
+    the size (a lying ``Content-Length``) would silently yield a truncated
+    object, and an origin answering with a different range of the same
+    length would corrupt the reassembled result.
+    """
+    if content_range is None:
+        return None
+    match = re.match(r"^\s*bytes\s+(\d+)-(\d+)/(\d+|\*)\s*$", content_range)
+    if match is None:
+        return None
+    try:
+        got_start, got_end = int(match.group(1)), int(match.group(2))
+        got_total = None if match.group(3) == "*" else int(match.group(3))
+    except ValueError:
+        return None
+    if got_start != start or got_end != end:
+        return f"served bytes {got_start}-{got_end}"
+    if total is not None and got_total is not None and got_total != total:
+        return f"complete length {got_total} != expected {total}"
+    return None
+
+
 async def _range_probe(
     url: str,
     client: aiohttp.ClientSession,
@@ -708,13 +737,15 @@ async def _fetch_one_chunk(
     semaphore: asyncio.Semaphore,
     config: FetchConfig,
     url_validator: Callable[[str], None] | None,
+    total: int | None = None,
 ) -> bytes:
     """Fetch a single byte range.
 
     Validates that the server returns HTTP 206 Partial Content. If the
     server ignores the Range header and returns 200, it would silently
     deliver the full body for every chunk, corrupting the reassembled
-    result.
+    result.  A ``Content-Range`` that contradicts the requested range or
+    the probed object size (*total*) is rejected for the same reason.
     """
     expected_size = end - start + 1
     async with semaphore:
@@ -725,6 +756,9 @@ async def _fetch_one_chunk(
                 raise RuntimeError(
                     f"Expected HTTP 206 for Range request, got {resp.status} (bytes={start}-{end} of {redact_url(url)})"
                 )
+            mismatch = _content_range_mismatch(resp.headers.get("Content-Range"), start, end, total)
+            if mismatch is not None:
+                raise RuntimeError(f"Content-Range mismatch: {mismatch} (bytes={start}-{end} of {redact_url(url)})")
             try:
                 return await _read_range_response_body(resp, expected_size, config)
             except RuntimeError as exc:
@@ -755,7 +789,7 @@ async def _fetch_chunks_with_hedging(
         t0 = time.monotonic()
 
         async def _timed_fetch() -> tuple[int, bytes]:
-            data = await _fetch_one_chunk(client, url, start, end, semaphore, config, url_validator)
+            data = await _fetch_one_chunk(client, url, start, end, semaphore, config, url_validator, content_length)
             elapsed = time.monotonic() - t0
             completion_times.append(elapsed)
             return idx, data
